@@ -156,6 +156,9 @@ func init() {
 			r := c.R.Fork()
 			kind := uint64(r.Intn(2))
 			o := genWOpts(r)
+			if i%4 == 3 {
+				o.maxS = uint64(pick(r, []int{64, 256, 1 << 10})) // blocks above MaxAllowedSectionSize are put and resumed over
+			}
 			alpha := genBlocks(r, 2+r.Intn(5), genOpts{identity: true, maxData: 0}) // sizes up to the 2^14 varint boundary; 2^21 is C01/C05 territory (the extracted model is too slow on MiB-sized lists)
 			roots := genRoots(r, alpha, true)
 			var all []Blk
@@ -196,6 +199,10 @@ func init() {
 				panic("header length")
 			}
 			puts := genBlocks(r, 2, genOpts{identity: false, maxData: 40})
+			// a block ABOVE the small MaxAllowedSectionSize between them: Put does not check that limit
+			// (it only bounds what readers take out of a CAR), so the session must stay resumable
+			ld := r.Bytes(2048)
+			puts = []Blk{puts[0], {mkCid(1, 0x55, mh.SHA2_256, -1, ld), ld}, puts[1]}
 			smallS := defaultWOpts
 			smallS.maxS = 1 << 10
 			smallSpad := smallS
